@@ -9,7 +9,7 @@ use vbase::{ensure, fail};
 
 use crate::sx::{cmp_node, number_to_m, walk};
 
-pub const RULE: &str = "cases are well-formed JSON values of every type (bare literals, escaped strings, every number class, containers) with generated layout, plus a generated operation history. Sources: LazyValue from from_str / from_slice, as a borrowed struct field, from get and from both iterators; OwnedLazyValue from serde, as a struct field, from From<LazyValue> and from to_lazyvalue. For each source the accessor set (get_type, is_*, as_bool, as_number/as_u64/as_i64/as_f64, as_str, as_raw_number, get, pointer, as_array/as_object + len/iteration) is compared with the reference tree of the raw text; to_string must reproduce the raw text verbatim (deserialize-then-serialize == trimmed input); Value::try_from(lazy) must equal the reference; conversions borrowed->owned and clones must agree. Histories on OwnedLazyValue (clone, take, as_array_mut/as_object_mut + push / append_pair / replace / remove, get_mut, pointer_mut + assignment, mutable lookups that must fail and must leave the child's text, raw number and type unchanged) are mirrored on a reference model; afterwards parse(to_string(mutated)) must equal the model, untouched children must still serialize to their source span byte for byte, and clones taken earlier must be unchanged. Non-trivial = container with >= 1 member or escaped string, or a history with a mutation after a clone; distinct by case bytes.";
+pub const RULE: &str = "cases are well-formed JSON values of every type (bare literals, escaped strings, every number class, containers) with generated layout, plus a generated operation history. Sources: LazyValue from from_str / from_slice, as a borrowed struct field, from get and from both iterators; OwnedLazyValue from serde, as a struct field, from From<LazyValue> and from to_lazyvalue. For each source the accessor set (get_type, is_*, as_bool, as_number/as_u64/as_i64/as_f64, as_str, as_raw_number, get, pointer, as_array/as_object + len/iteration) is compared with the reference tree of the raw text; to_string must reproduce the raw text verbatim (deserialize-then-serialize == trimmed input); Value::try_from(lazy) must equal the reference; conversions borrowed->owned and clones must agree. Numbers of every length (1..=40 integer digits x 0..=70 fraction digits) as members. Histories on OwnedLazyValue (clone, clone_from onto a value whose caches are filled, take, as_array_mut/as_object_mut + push / append_pair / replace / remove, get_mut, pointer_mut + assignment, mutable lookups that must fail and must leave the child's text, raw number and type unchanged) are mirrored on a reference model; afterwards parse(to_string(mutated)) must equal the model, untouched children must still serialize to their source span byte for byte, and clones taken earlier must be unchanged. Non-trivial = container with >= 1 member or escaped string, or a history with a mutation after a clone; distinct by case bytes.";
 pub const ASSUMPTIONS: &[&str] = &["refjson parser", "Display for OwnedLazyValue is not part of the statement"];
 
 #[derive(Deserialize)]
@@ -265,7 +265,7 @@ pub fn oracle_history(case: &[u8], obs: &mut Obs) -> Result<(), Fail> {
     let mut mutated_after_clone = false;
     let nops = 1 + src.below(8);
     for _ in 0..nops {
-        let op = src.below(10);
+        let op = src.below(11);
         match op {
             0 => {
                 clones.push((v.clone(), model.clone()));
@@ -443,6 +443,34 @@ pub fn oracle_history(case: &[u8], obs: &mut Obs) -> Result<(), Fail> {
                     log.push(format!("failed-lookup {path:?}"));
                 }
             }
+            10 => {
+                // clone_from: the value takes over everything from another (fresh or already read) value, and
+                // nothing of its own earlier state — cached parse included — may survive
+                let other_text = *src.pick(&["[10, \"b\\n\", {\"k\": 2.50}]", "{\"x\": [1e2, \"\\u00e9\"], \"y\": null}", "\"esc\\taped\"", "12345678901234567890123", "[[1, 2], [3]]", "{\"a\":{\"b\":{\"c\":[true]}}}"]);
+                let other: OwnedLazyValue = sonic_rs::from_str(other_text).unwrap();
+                if src.bool() {
+                    // fill the receiver's caches first
+                    let _ = (v.as_str().map(|s| s.len()), v.as_number(), v.get(0usize).map(|x| x.get_type()), v.as_array().map(|a| a.len()), v.as_object().map(|o| o.len()));
+                }
+                if src.bool() {
+                    let _ = (other.as_str().map(|s| s.len()), other.as_number(), other.as_array().map(|a| a.len()), other.as_object().map(|o| o.len()));
+                }
+                if src.bool() {
+                    v.clone_from(&other);
+                } else {
+                    let mut two = vec![std::mem::take(&mut v)];
+                    two.clone_from(&vec![other.clone()]);
+                    v = two.pop().unwrap();
+                }
+                let (oroot, _) = refjson::parse(other_text.as_bytes()).unwrap();
+                model = model_of(&oroot, other_text.as_bytes());
+                // every view answers from the new text
+                check_owned("owned(clone_from)", &v, &oroot, other_text.as_bytes(), 0)?;
+                log.push(format!("clone_from({other_text})"));
+                mutated_after_clone |= !clones.is_empty();
+                // the verbatim checks at the end refer to the original document: they no longer apply
+                log.push("pointer_mut (whole value replaced)".into());
+            }
             _ => {
                 let c = v.clone();
                 ensure!(ser(&c)? == ser(&v)?, "C13/history/clone-differs", "clone serializes differently after [{}]", log.join("; "));
@@ -510,6 +538,33 @@ pub fn run(ctx: &Ctx) {
     // every type incl. bare literals
     let list: Vec<Vec<u8>> = ["true", "false", "null", " true ", "\nnull\t", "0", "-0", "1.5", "\"\"", "\"a\\nb\"", "[]", "{}", "[true,false,null]", "{\"t\":true,\"f\":false,\"n\":null}", "[ true , null ]"].iter().map(|s| s.as_bytes().to_vec()).collect();
     ctx.cases(&subs[0], &list);
+    // numbers of every length (integer digits 1..=40 x fraction digits 0..=70) as members followed by a delimiter
+    ctx.sweep(&subs[0], true, &|shard, n, emit| {
+        let mut k = 0usize;
+        for int_len in 1..=40usize {
+            for frac_len in 0..=70usize {
+                k += 1;
+                if k % n != shard {
+                    continue;
+                }
+                let mut num = String::new();
+                for i in 0..int_len {
+                    num.push((b'1' + (i % 9) as u8) as char);
+                }
+                if frac_len > 0 {
+                    num.push('.');
+                    for i in 0..frac_len {
+                        num.push((b'0' + ((i * 7 + 3) % 10) as u8) as char);
+                    }
+                }
+                for doc in [format!("[{num},1,\"0123456789012345678901234567890123456789\"]"), format!("{{\"a\":-{num},\"b\":[2],\"c\":\"0123456789012345678901234567890123456789\"}}"), format!("[[{num}e-3],{{\"k\":{num}}} ]")] {
+                    if !emit(doc.as_bytes()) {
+                        return;
+                    }
+                }
+            }
+        }
+    });
     let p = DocParams { ws: 2, max_depth: 4, max_items: 5, dup_keys: true, ..DocParams::default() };
     let pc = p.clone();
     ctx.search(&subs[0], "docs", ctx.n(2_000_000, 16_000_000), 600, &move |src: &mut Src| gens::gen_doc(src, &pc));
